@@ -6,13 +6,39 @@ def hx(s):
     return "x" + (s.encode().hex() if s else "-")
 
 
-def corr(src_pod="", dst_pod="", ingress=0, egress=0, extra=None, node=None):
-    """correlate-field tokens in configuration order"""
+# positions in the correlate token (the order of the configuration, corrFields in eng_agg.go)
+SRC_POD, SRC_NS, SRC_NODE, DST_POD, DST_NS, DST_NODE, CLUSTER4, SVC_PORT, INGRESS, EGRESS, PRIO, CLUSTER6 = range(12)
+N_CORR = 12
+POD_POSITIONS = (SRC_POD, DST_POD)
+NON_POD_POSITIONS = tuple(i for i in range(N_CORR) if i not in POD_POSITIONS)
+ABSENT = "~"
+
+
+def corr(src_pod="", dst_pod="", ingress=0, egress=0, extra=None, node=None, absent=None):
+    """correlate-field tokens in configuration order; absent = positions of the fields the record does NOT carry
+    (token `~`: the exporter's template has no such element)"""
     e = dict(src_ns="", src_node="", dst_ns="", dst_node="", cluster="00000000", svc_port=0, prio=0, cluster6="00" * 16)
     if extra:
         e.update(extra)
-    return ",".join([hx(src_pod), hx(e["src_ns"]), hx(e["src_node"]), hx(dst_pod), hx(e["dst_ns"]), hx(e["dst_node"]),
-                     "x" + e["cluster"], "n%d" % e["svc_port"], "n%d" % ingress, "n%d" % egress, "n%d" % e["prio"], "x" + e["cluster6"]])
+    toks = [hx(src_pod), hx(e["src_ns"]), hx(e["src_node"]), hx(dst_pod), hx(e["dst_ns"]), hx(e["dst_node"]),
+            "x" + e["cluster"], "n%d" % e["svc_port"], "n%d" % ingress, "n%d" % egress, "n%d" % e["prio"], "x" + e["cluster6"]]
+    for i in absent or ():
+        toks[i] = ABSENT
+    return ",".join(toks)
+
+
+def drop_field(op, pos):
+    """the `agg rec` op with the correlate field at position pos removed from the record"""
+    f = op.split(" ")
+    c = f[4].split(",")
+    c[pos] = ABSENT
+    f[4] = ",".join(c)
+    return " ".join(f)
+
+
+def absent_mask(op):
+    """which correlate fields the record of an `agg rec` op lacks"""
+    return tuple(t == ABSENT for t in op.split(" ")[4].split(","))
 
 
 def rec_op(key, flow_type, corr_tok, start, end, stats, reason=2, tcp="ESTABLISHED"):
@@ -24,6 +50,7 @@ def msg_op(rec_ops, perm=None):
     """`agg msg`: the records of the given `agg rec` ops (without p<n>; keys of one address family) in ONE data set
     that travels exporter encoding -> collector decoding -> aggregation; perm = element order of the whole message"""
     assert rec_ops and all(o.startswith("agg rec ") and len(o.split()) == 10 for o in rec_ops)
+    assert len({absent_mask(o) for o in rec_ops}) == 1, "the records of one data set share a template"
     return "agg msg " + " + ".join(o[len("agg rec "):] for o in rec_ops) + (" p%d" % perm if perm is not None else "")
 
 
@@ -45,9 +72,23 @@ def intra(key, start, end, stats, **kw):
     return rec_op(key, 1, corr("podA", "podB"), start, end, stats, **kw)
 
 
-def inter_src(key, start, end, stats, ingress=0, egress=0, extra=None, **kw):
-    return rec_op(key, 2, corr("podA", "", ingress, egress, extra), start, end, stats, **kw)
+def inter_src(key, start, end, stats, ingress=0, egress=0, extra=None, absent=None, **kw):
+    return rec_op(key, 2, corr("podA", "", ingress, egress, extra, absent=absent), start, end, stats, **kw)
 
 
-def inter_dst(key, start, end, stats, ingress=0, egress=0, extra=None, **kw):
-    return rec_op(key, 2, corr("", "podB", ingress, egress, extra), start, end, stats, **kw)
+def inter_dst(key, start, end, stats, ingress=0, egress=0, extra=None, absent=None, **kw):
+    return rec_op(key, 2, corr("", "podB", ingress, egress, extra, absent=absent), start, end, stats, **kw)
+
+
+def sprinkle_absent(rec_ops, keep=(), one_in=20):
+    """about one record in `one_in` lacks one of the non-pod correlate fields (the exporter's template has no such
+    element). The choice is a function of the op text alone - it draws no random numbers, so the histories a seed
+    generates are the ones it generated before. rec_ops = the `agg rec` ops of ONE data set (a single op for a record
+    handed over alone): they share a template, so all of them lose the same field. keep = positions never dropped."""
+    import zlib
+    h = zlib.crc32(rec_ops[0].encode())
+    if h % one_in != 0:
+        return rec_ops
+    cand = [i for i in NON_POD_POSITIONS if i not in keep]
+    pos = cand[(h // one_in) % len(cand)]
+    return [drop_field(o, pos) for o in rec_ops]
